@@ -223,6 +223,19 @@ class Interp:
                 return frozenset(out) if any(x != K(POS) for x in args) else K(POS)
             if name in ('float', 'double') and len(args) == 1:
                 return args[0]
+            if name in ('max', 'min', 'maximum', 'minimum', 'fmax', 'fmin') and len(args) == 2:
+                order = {NINF: 0, NEG: 1, ZERO: 2, POS: 3, PINF: 4}
+                out = set()
+                for x in args[0]:
+                    for y in args[1]:
+                        if x in (NAN, EXC) or y in (NAN, EXC):
+                            out |= {x, y}       # with a NaN the result is one of the two arguments (which one depends on the order)
+                        elif x == y:
+                            out.add(x)          # two values of one sign class: the result is in that class
+                        else:
+                            pick = max if name in ('max', 'maximum', 'fmax') else min
+                            out.add(pick((x, y), key=lambda k_: order[k_]))
+                return frozenset(out)
             raise AnalysisError('abstract semantics of call %s unknown' % src(n.func))
         raise AnalysisError('abstract semantics of %s unknown' % src(n))
 
